@@ -247,12 +247,15 @@ fn gen_col(t: &Ty, n: usize, nd: usize, r: &mut Rng) -> Vec<OV> {
 
 // ------------------------------------------------------------------------------------------ physical arrays
 
-pub struct Lay { r: Rng, garbage: bool, pad: bool, keep_nullbuf: bool }
+/// `viewbuf` (optional 2nd element of the layout group): 0 = seeded choice, 1 = a view array without long values owns
+/// NO data buffer, 2 = it keeps (unused) data buffers
+pub struct Lay { r: Rng, garbage: bool, pad: bool, keep_nullbuf: bool, viewbuf: i64 }
 impl Lay {
     fn from_group(g: &Group) -> Lay {
         let s = to_i64s(g);
         let seed = s.first().copied().unwrap_or(0) as u64;
-        Lay { r: Rng::new(seed), garbage: seed % 2 == 1, pad: (seed / 2) % 2 == 1, keep_nullbuf: (seed / 4) % 2 == 1 }
+        Lay { r: Rng::new(seed), garbage: seed % 2 == 1, pad: (seed / 2) % 2 == 1, keep_nullbuf: (seed / 4) % 2 == 1,
+              viewbuf: s.get(1).copied().unwrap_or(0) }
     }
 }
 fn default_val(t: &Ty) -> V {
@@ -421,7 +424,8 @@ fn build_view<T: ByteViewType>(phys: &[V], valid: &[bool], lay: &mut Lay) -> Arr
         }
     }
     // without long values the array may have no data buffer at all (the inline fast paths) or unused ones
-    let buffers: Vec<Buffer> = if !any_long && lay.r.chance(2, 3) { vec![] } else { bufs.into_iter().map(Buffer::from_vec).collect() };
+    let drop_bufs = !any_long && match lay.viewbuf { 1 => true, 2 => false, _ => lay.r.chance(2, 3) };
+    let buffers: Vec<Buffer> = if drop_bufs { vec![] } else { bufs.into_iter().map(Buffer::from_vec).collect() };
     Arc::new(GenericByteViewArray::<T>::try_new(ScalarBuffer::from(views), buffers, nulls_of(valid, lay)).unwrap())
 }
 
@@ -849,6 +853,42 @@ pub fn generate(tier: &str, r: &mut Rng, emit: &mut dyn FnMut(Case)) {
                 emit(Case::new("c10.cmp", vec![gty(&t), glay(r), gcol(&a), lb, gcol(&b)], &["c10.cmp", "c10.cmp.spec"],
                     format!("cmp {} {} nd{} same{}", tyname(&t), nclass(n), nd, same as u8)));
             }
+        }
+    }
+
+    // ---- comparator across two DIFFERENT view arrays with different buffer ownership: one side all-inline with no data
+    //      buffer at all, the other with out-of-line (> 12 byte) values, pairs sharing the 4-byte prefix (and whole inline
+    //      values being prefixes of long ones) — compare_byte_view_values may take the inline-key path only when BOTH
+    //      sides have no buffers; a long view's buffer-index / offset words are not string bytes
+    for vt in [Utf8View, BinaryView] {
+        for rep in 0..(6 * scale) {
+            let prefix: Vec<u8> = (0..4).map(|_| b'a' + r.below(3) as u8).collect();
+            let tail = |r: &mut Rng, len: usize| -> Vec<u8> { (0..len).map(|_| *r.pick(&[0u8, 1, b'a', b'b', b'm', b'z', 0x7f])).collect() };
+            let ns = 3 + r.below(8); let nl = 3 + r.below(8);
+            let mut short: Vec<OV> = Vec::new();
+            for _ in 0..ns {
+                if r.chance(1, 8) { short.push(None); continue }
+                let mut b = if r.chance(5, 6) { prefix.clone() } else { gen_bytes(r, true, Some(4)) };
+                let extra = *r.pick(&[0usize, 1, 1, 2, 4, 7, 8]); b.extend(tail(r, extra));
+                if r.chance(1, 6) && b.is_ascii() { b.truncate(r.below(4)) }
+                short.push(Some(V::Bytes(b)));
+            }
+            let mut long: Vec<OV> = Vec::new();
+            for i in 0..nl {
+                if r.chance(1, 8) { long.push(None); continue }
+                // some long values extend a short one, the rest share only the prefix
+                let base: Vec<u8> = match short.get(i % ns.max(1)) { Some(Some(V::Bytes(b))) if r.bool() && b.len() >= 4 => b.clone(), _ => prefix.clone() };
+                let mut b = base; let want = 13 + r.below(10);
+                while b.len() < want { let t = tail(r, 1); b.extend(t) }
+                long.push(if r.chance(1, 6) { short[r.below(ns)].clone() } else { Some(V::Bytes(b)) });
+            }
+            if !long.iter().any(|v| matches!(v, Some(V::Bytes(b)) if b.len() > 12)) { let mut b = prefix.clone(); b.extend(vec![b'z'; 12]); long.push(Some(V::Bytes(b))) }
+            // layouts without garbage / padding (seed multiple of 4 apart from the kept-null-buffer bit) so the short side stays all-inline
+            let ls = vec![BigInt::from(4 * r.below(200_000) as i64), BigInt::from(1 + (rep % 3 == 2) as i64)];
+            let ll = vec![BigInt::from(4 * r.below(200_000) as i64), BigInt::from(0)];
+            let (a, la, b, lb) = if rep % 2 == 0 { (&short, &ls, &long, &ll) } else { (&long, &ll, &short, &ls) };
+            emit(Case::new("c10.cmp", vec![gty(&vt), la.clone(), gcol(a), lb.clone(), gcol(b)], &["c10.cmp", "c10.cmp.spec"],
+                format!("cmp-viewbuf {} short{} nobuf{}", tyname(&vt), if rep % 2 == 0 { "L" } else { "R" }, (rep % 3 != 2) as u8)));
         }
     }
 
